@@ -12,7 +12,7 @@ def check(run, replay=None):
               "junk} x tapes (random / all-zero) x Round1Output buffer {Default, reused non-zero}; per case the whole "
               "first-round message (9232 bytes), the recorded choices and all of v_x, v_0, v_1 (147 KiB) are compared byte for "
               "byte with the extracted model run on the same tape with the real merlin behind H; the seed generator is compared "
-              "on a replica rng tape; non-trivial = distinct (seed kind, choice kind, sid length, buffer) combinations"),
+              "on a replica rng tape; non-trivial = distinct (seed kind, choice kind, sid length, buffer) combinations Oracle-only sweep: all-zero / all-one choice vectors with all-zero / all-one extension tapes, special leaf keys (0^256, 1^256, equal neighbours) on non-punctured leaves."),
         assumptions=["merlin framing is injective in (label, message) sequences (the model's oracle input is the structured operation list)",
                      "the field multiplication of the model is gf_spec_bytes; its equality with binary_field_multiply_gf_2_128 is C19",
                      "'the other message differs' is proved as: equal => packed_nabla = 0 (all punctured indices 0) or an explicit "
